@@ -14,7 +14,8 @@
 //!     `if occurrences == 0 {0.0} else {total / occurrences as f64}`; NaN -> `nan`.
 //!     (Recomputed when a case is encoded; ignored when a case is decoded.)
 //!   * `io:<k>` (optional): the writer accepts exactly k bytes in total (partial writes allowed), every
-//!     later write call fails with `BrokenPipe`.
+//!     later write call fails with `BrokenPipe`; `io0:<k>`: every later call returns `Ok(0)` instead (a
+//!     zero-length write, reported as `WriteZero`). Same observable `io`, same model step.
 //!   * `rate:<8 hex of f32 bits>` (optional, sampled formatters only; ignored for plain ones): the step
 //!     calls `format_with_sample_rate` with this rate instead of the one stored in `BuiltFmt`.
 //!   * `pre:<op>,<op>…` (optional): operations on the POOL of formatters executed before the step - `c<k>`:
@@ -145,6 +146,8 @@ impl Op {
 struct Step {
     entry: GenEntry,
     io: Option<usize>,
+    /// with `io`: the writer answers `Ok(0)` (zero-length write -> `WriteZero`) instead of a hard error
+    io_zero: bool,
     rate: Option<u32>,
     /// pool operations executed before this step
     pre: Vec<Op>,
@@ -205,7 +208,7 @@ fn float_table(e: &GenEntry) -> String {
 
 impl Step {
     fn plain(entry: GenEntry) -> Step {
-        Step { entry, io: None, rate: None, pre: vec![], on: 0, mult: None, skip: false, panic: None }
+        Step { entry, io: None, io_zero: false, rate: None, pre: vec![], on: 0, mult: None, skip: false, panic: None }
     }
     fn has_timestamp(&self) -> bool {
         self.entry.items.iter().any(|i| matches!(i, GItem::Timestamp(_)))
@@ -213,7 +216,7 @@ impl Step {
     fn trailer(&self) -> String {
         let mut s = format!("ft:{}", float_table(&self.entry));
         if let Some(k) = self.io {
-            s.push_str(&format!(" io:{k}"));
+            s.push_str(&format!(" io{}:{k}", if self.io_zero { "0" } else { "" }));
         }
         if let Some(r) = self.rate {
             s.push_str(&format!(" rate:{r:08x}"));
@@ -262,7 +265,10 @@ impl Case {
             let entry = GenEntry::decode(pair[0])?;
             let mut st = Step::plain(entry);
             for tok in pair[1].split_whitespace() {
-                if let Some(k) = tok.strip_prefix("io:") {
+                if let Some(k) = tok.strip_prefix("io0:") {
+                    st.io = Some(k.parse().ok()?);
+                    st.io_zero = true;
+                } else if let Some(k) = tok.strip_prefix("io:") {
                     st.io = Some(k.parse().ok()?);
                 } else if let Some(r) = tok.strip_prefix("rate:") {
                     st.rate = Some(u32::from_str_radix(r, 16).ok()?);
@@ -301,6 +307,8 @@ fn invalid_rate(bits: u32) -> bool {
 
 /// accepts `budget` bytes in total, then fails every call
 struct BudgetWriter {
+    /// once the budget is used up: `Ok(0)` (a zero-length write) instead of a hard error
+    zero: bool,
     budget: Option<usize>,
     accepted: Vec<u8>,
 }
@@ -315,6 +323,9 @@ impl Write for BudgetWriter {
         if let Some(k) = self.budget {
             let left = k.saturating_sub(self.accepted.len());
             if left == 0 && total > 0 {
+                if self.zero {
+                    return Ok(0);
+                }
                 return Err(io::Error::new(io::ErrorKind::BrokenPipe, "budget exhausted"));
             }
             n = n.min(left);
@@ -397,7 +408,7 @@ impl Slot {
                 Slot::Wrapped(kind, Box::new(move |st, w| with_entry!(st, |e| f.format(e, w))))
             }
             Kind::Stream => {
-                let shared = SharedOut(std::rc::Rc::new(std::cell::RefCell::new(BudgetWriter { budget: None, accepted: vec![] })));
+                let shared = SharedOut(std::rc::Rc::new(std::cell::RefCell::new(BudgetWriter { zero: false, budget: None, accepted: vec![] })));
                 let mut stream = emf.output_to(shared.clone());
                 Slot::Wrapped(
                     kind,
@@ -615,7 +626,7 @@ impl metrique_writer_core::Entry for PanicEntry<'_> {
 
 fn run_step(fmt: &mut Slot, cfg: &EmfCfg, step: &Step) -> StepOut {
     use metrique_writer_core::format::Format;
-    let mut w = BudgetWriter { budget: step.io, accepted: vec![] };
+    let mut w = BudgetWriter { zero: step.io_zero, budget: step.io, accepted: vec![] };
     let kind = fmt.kind();
     let r = catch(|| match &mut *fmt {
         Slot::Plain(f) => with_entry!(step, |e| f.format(e, &mut w)),
@@ -630,7 +641,8 @@ fn run_step(fmt: &mut Slot, cfg: &EmfCfg, step: &Step) -> StepOut {
     let res = match r {
         Ok(Ok(())) => "ok".to_string(),
         Ok(Err(IoStreamError::Io(e))) => {
-            if e.kind() == io::ErrorKind::BrokenPipe { "io".to_string() } else { format!("io-{:?}", e.kind()) }
+            let expected = if step.io_zero { io::ErrorKind::WriteZero } else { io::ErrorKind::BrokenPipe };
+            if e.kind() == expected { "io".to_string() } else { format!("io-{:?}", e.kind()) }
         }
         Ok(Err(IoStreamError::Validation(e))) => {
             let mut m: BTreeMap<&'static str, usize> = BTreeMap::new();
@@ -1457,15 +1469,64 @@ fn huge_string(rng: &mut Rng) -> String {
 }
 
 fn unfaulted_len(cfg: &EmfCfg, step: &Step) -> usize {
+    unfaulted_bytes(cfg, step).len()
+}
+
+fn unfaulted_bytes(cfg: &EmfCfg, step: &Step) -> Vec<u8> {
     let mut probe = step.clone();
     probe.io = None;
     probe.pre.clear();
     probe.on = 0;
     let first = if cfg.multiplicity.is_some() { Kind::Sampled } else { Kind::Plain };
     match Slot::fresh(cfg, first) {
-        Some(mut f) => run_step(&mut f, cfg, &probe).bytes.len(),
-        None => 0,
+        Some(mut f) => run_step(&mut f, cfg, &probe).bytes,
+        None => vec![],
     }
+}
+
+/// C02: an entry whose write fails on I/O (hard error or zero-length write; inside a split record, at a
+/// call boundary, inside the default record; with and without entry dimensions), then ordinary entries
+/// into a healthy writer on the same formatter - every step strict-JSON judged
+fn gen_c02_io_seq(rng: &mut Rng, bumps: &mut Bumps) -> Case {
+    bumps.bump("stream:io-failure-then-ordinary");
+    let (nasty, sampled) = (rng.chance(1, 8), rng.chance(1, 4));
+    let cfg = gen_cfg(rng, nasty, sampled);
+    let mut steps = vec![];
+    if rng.chance(1, 4) {
+        steps.push(Step::plain(entry(gen_valid_items(rng, &cfg, EOpt { small: true, ..EOpt::default() }))));
+    }
+    let opt = match rng.below(4) {
+        0 => EOpt { cs: Some(true), cd: Some(false), min_metrics: 3, dims_pct: 75, ..EOpt::default() },
+        1 => EOpt { cs: Some(true), cd: Some(true), min_metrics: 2, dims_pct: 60, ..EOpt::default() },
+        2 => EOpt { cd: Some(true), min_metrics: 1, ..EOpt::default() },
+        _ => EOpt { cd: Some(false), min_metrics: 1, ..EOpt::default() },
+    };
+    let mut items = gen_valid_items(rng, &cfg, opt);
+    if !items.iter().any(|i| matches!(i, GItem::Timestamp(_))) {
+        items.insert(0, GItem::Timestamp(gen_ts(rng)));
+    }
+    let mut st = Step::plain(entry(items));
+    let bytes = unfaulted_bytes(&cfg, &st);
+    let ends: Vec<usize> = bytes.iter().enumerate().filter(|(_, b)| **b == b'\n').map(|(i, _)| i + 1).collect();
+    let last_start = if ends.len() >= 2 { ends[ends.len() - 2] } else { 0 };
+    let len = bytes.len();
+    let (k, site) = match rng.below(6) {
+        0 => (0, "first-call"),
+        1 if ends.len() >= 2 => (ends[rng.below(ends.len() as u64 - 1) as usize], "call-boundary"),
+        2 if ends.len() >= 2 => (rng.range(0, last_start as u64) as usize, "split-record"),
+        3 => (len.saturating_sub(1), "last-byte"),
+        _ => (rng.range(last_start as u64, len.saturating_sub(1) as u64) as usize, "default-record"),
+    };
+    bumps.bump(&format!("io-failure:{site}"));
+    st.io = Some(k);
+    st.io_zero = rng.chance(1, 3);
+    bumps.bump(if st.io_zero { "io-failure:zero-length-write" } else { "io-failure:hard-error" });
+    steps.push(st);
+    for _ in 0..rng.range(2, 3) {
+        let o = if rng.chance(1, 3) { EOpt { cd: Some(true), min_metrics: 1, ..EOpt::default() } } else { EOpt { small: true, ..EOpt::default() } };
+        steps.push(Step::plain(entry(gen_valid_items(rng, &cfg, o))));
+    }
+    Case { cfg, steps }
 }
 
 /// C14: one step of the given kind for this configuration
@@ -2417,6 +2478,13 @@ fn main() {
                     let cases: Vec<Case> = (i..(i + batch).min(n)).map(|k| gen_c02_case(&mut rng, k, &mut gb)).collect();
                     process_batch(&mut run, &mut rep, &cases);
                     i += batch;
+                }
+                // sequences: an entry whose write fails on I/O, then ordinary entries into a healthy writer
+                let n_io: u64 = if args.thorough() { 8_000 } else { 300 };
+                let mut irng = rng.fork(0x10fa);
+                let cases: Vec<Case> = (0..n_io).map(|_| gen_c02_io_seq(&mut irng, &mut gb)).collect();
+                for chunk in cases.chunks(2_000) {
+                    process_batch(&mut run, &mut rep, chunk);
                 }
                 // sequences: an entry that panics mid-way, then ordinary entries
                 let n_panic: u64 = if args.thorough() { 6_000 } else { 200 };
